@@ -3,7 +3,7 @@
 PROPS = {}
 HARNESSES = []
 # properties whose check is registered in MANIFEST.json (the others are listed under not_applicable)
-CLAIMED = ["C02", "C03", "C04", "C05", "C06", "C07", "C08", "C09", "C10", "C11", "C12", "C16", "C19"]
+CLAIMED = ["C02", "C03", "C04", "C05", "C06", "C07", "C08", "C09", "C10", "C11", "C12", "C13", "C14", "C16", "C19"]
 
 FMT = "alloc::fmt::format->String::new()"
 
@@ -206,12 +206,12 @@ h("C03", "c03::c03_two_frames_same_type", funcs=DM, space="two type-15 frames, b
 
 # ------------------------------------------------------------------------------------------- C13
 prop("C13",
-     level_text="Bounded model checking of decode_clutter_filter_map on well-formed bodies with 0, 1 (quick) and 2 (thorough) elevation segments of 360 azimuth segments each: generation date/time fields, numbering, declared zone counts and the (op code, end range) pairs in order with symbolic zone values; plus every truncation point of a one-segment body is an error.",
-     level_note="Trusted: Kani/CBMC. Zone *counts* are concrete per harness instance (azimuths 0, 1 and 359 carry zones, all others none) so that byte offsets stay concrete; zone values, date and time are symbolic. The date-time *conversion* is C08.",
-     outside="more than 2 elevation segments; other placements of non-empty azimuths; zone counts above 2")
+     level_text="Bounded model checking of decode_clutter_filter_map. Thorough tier: well-formed bodies with one elevation segment of 360 azimuth segments (zone counts 2, 1, 2 at azimuths 0, 1, 359, zone values and date/time symbolic): numbering, declared counts, (op code, end range) pairs in order, op-code meaning; and every cut point inside the last zone list is an error. Quick tier (the 360-iteration body costs 25-40 min of symbolic execution): the zero-segment body and bodies cut at concrete points 5..40 bytes for every declared segment count 1..=255 are errors.",
+     level_note="Trusted: Kani/CBMC. Zone *counts* are concrete per harness instance so that byte offsets stay concrete; zone values, date, time and (in the truncation harnesses) the segment count are symbolic. --max-field-sensitivity-array-size 1024: above the input buffer, below the 11,520-byte Vec<AzimuthSegment> (with 16384 the same query does not finish in 3 h). The date-time *conversion* is C08.",
+     outside="more than one elevation segment (c13_structure_s2: probe tier, 720 iterations); other placements of non-empty azimuths; zone counts above 2; cut points between byte 40 and the last zone list")
 CFM = ["clutter_filter_map::decode_clutter_filter_map", "util::deserialize", "RangeZone::op_code"]
-h("C13", "c13::c13_structure_s0", tier="probe", funcs=CFM, space="all headers with 0 segments", bounds="S = 0", mem=8)
-h("C13", "c13::c13_structure_s1", tier="probe", funcs=CFM, space="1 segment x 360 azimuths; zones (2,1,2) at azimuths 0,1,359 with symbolic values", bounds="S = 1; unwind 362", mfs=16384, mem=24, timeout=10800)
+h("C13", "c13::c13_structure_s0", tier="quick", funcs=CFM, space="all headers with 0 segments", bounds="S = 0", mem=8)
+h("C13", "c13::c13_structure_s1", tier="thorough", funcs=CFM, space="1 segment x 360 azimuths; zones (2,1,2) at azimuths 0,1,359 with symbolic values", bounds="S = 1; unwind 362", mfs=1024, mem=24, timeout=7200)
 h("C13", "c13::c13_structure_s2", tier="probe", funcs=CFM, space="2 segments x 360 azimuths; zones (1,0,2)", bounds="S = 2; unwind 362", mfs=16384, mem=40, timeout=21600)
 h("C13", "c13::c13_truncated", tier="probe", funcs=CFM, space="one declared segment, zero zone counts, every cut point 0..=726", bounds="unwind 362", mfs=16384, mem=24, timeout=10800, unwind_is_violation=True)
 h("C04", "c04::c04_type31_one_block_free", tier="probe", funcs=["decode_digital_radar_data", "Message::radial", "GenericDataBlock::new"], space="all 2^(8*74) 76-byte inputs with block count 1: pointer, block type/name, gates, word size free", bounds="fixed length 76, 1 block; unwind 12", mem=16, mfs=128, unwind_is_violation=True, timeout=2400)
@@ -235,22 +235,50 @@ h("C01", "c01::c01_no_vol_block", tier="probe", funcs=SC, space="1 record, 1 rad
 
 # ------------------------------------------------------------------------------------------- C14
 prop("C14",
-     level_text="Bounded model checking of summarize::messages on lists of up to 2 (quick) / 3 (thorough) messages whose kinds (radial, status, VCP, other), elevation numbers and opaque type codes are symbolic (times of day concrete, non-monotone), against an independent single-pass reference written in the harness: tiling, spans, maximal runs, singleton status/VCP groups, continuation flag, first/last azimuth and time, collection-time range.",
-     level_note="Trusted: Kani/CBMC. std::hash::RandomState::new stubbed to fixed SipHash keys (the real one calls the OS); alloc::fmt::format stubbed, so the strings inside RDAStatusInfo/VCPInfo are empty and not compared. Radials carry no moment or volume blocks here: per-group data-type counts and the VCP set (HashMap/HashSet inserts with string keys) are not claimed.",
-     outside="lists longer than 3; data-type counts and the VCP set; text of status/VCP info")
+     level_text="Bounded model checking of summarize::messages on message lists with concrete message kinds, against an independent single-pass reference written in the harness (tiling of 0..n, message_count == index span, maximal runs, singleton status/VCP groups, continuation flag, group type, first/last azimuth and time, collection-time range, empty VCP set). Two families: (a) kind patterns R S R and R V R with all three elevation numbers symbolic (every continuation outcome in one query); (b) lists of 4-6 messages with concrete kinds, elevation labels and type codes and symbolic azimuth angles (the solver executes the representative grouping and decides the data flow). Thorough tier adds per-group data-type counts and the VCP set on two radials with symbolic elevation numbers.",
+     level_note="Trusted: Kani/CBMC. std::hash::RandomState::new stubbed to fixed SipHash keys (the real one calls the OS); alloc::fmt::format stubbed, so the strings inside RDAStatusInfo/VCPInfo are empty and not compared. Times of day are concrete and non-monotone (chrono on symbolic instants is C08's subject). A symbolic elevation equality that decides whether a group CONTINUES (pattern R R) exhausts 30 GB in CBMC's propositional reduction, hence family (b) uses concrete labels. --max-field-sensitivity-array-size 32768 (the Vec<Message> buffer must stay field-sensitive).",
+     outside="lists longer than 6; grouping decided by symbolic elevation numbers or symbolic type codes; text of status/VCP info; messages at epoch 0")
+SUMF = ["summarize::messages", "summarize::rda::extract_rda_status_info", "summarize::vcp::extract_vcp_info", "MessageHeader::{message_type,date_time}"]
+for nm, sp, tier in (("c14_pat_rsr", "radial, status, radial: all 256^3 elevation numbers, all non-NaN azimuth angles", "quick"),
+                     ("c14_pat_rvr", "radial, VCP, radial: all 256^3 elevation numbers, all non-NaN azimuth angles", "thorough"),
+                     ("c14_pat_ssv", "status, status, VCP", "quick"),
+                     ("c14_lab_r1r1r2r1", "radials with elevation labels 1,1,2,1; all non-NaN azimuth angles", "quick"),
+                     ("c14_lab_r1o13o13r1", "radial(1), other(13), other(13), radial(1); all non-NaN azimuth angles", "quick"),
+                     ("c14_lab_sr3r3v", "status, radial(3), radial(3), VCP; all non-NaN azimuth angles", "thorough"),
+                     ("c14_lab_o7o9r0r0", "other(7), other(9), radial(0), radial(0); all non-NaN azimuth angles", "thorough"),
+                     ("c14_lab_r2r2r2sr2r5", "radial(2) x3, status, radial(2), radial(5); all non-NaN azimuth angles", "thorough"),
+                     ("c14_pat_rrr", "three radials, all 256^3 elevation numbers", "probe"),
+                     ("c14_pat_rr", "two radials, all 256^2 elevation numbers (out of 30 GB in propositional reduction)", "probe"),
+                     ("c14_data_counts_and_vcp_set", "two radials (REF+VEL+VOL(212); REF and optionally VOL(35)), both elevation numbers symbolic: per-group data-type counts and the VCP set", "probe")):
+    h("C14", "c14::%s" % nm, tier=tier, funcs=SUMF, space=sp, bounds="concrete kinds; N = %d; unwind 8-40" % (3 if "pat_r" in nm or "ssv" in nm else 2 if "data" in nm else 6 if "r2r2r2" in nm else 4), mfs=32768, mem=20, timeout=2400)
 for n, tier, mem, to in ((0, "probe", 8, 900), (1, "probe", 16, 1800), (2, "probe", 24, 2400), (3, "probe", 40, 7200)):
     h("C14", "c14::c14_summary_n%d" % n, tier=tier, funcs=["summarize::messages", "summarize::rda::extract_rda_status_info", "summarize::vcp::extract_vcp_info", "MessageHeader::{message_type,date_time}"], space="all lists of %d messages: kinds^%d x elevation numbers x opaque type codes; concrete non-monotone times" % (n, n), bounds="N = %d" % n, mem=mem, timeout=to, mfs=4096)
+h("C19", "c19::c19_estimate_default_real_parser", funcs=["realtime::estimate_next_chunk_time", "ChunkIdentifier::sequence (real)", "get_elevation_from_chunk"], space="every three-digit previous sequence 000..=999 x waveform/channel codes of two cuts (2^32), concrete upload time", bounds="two cuts; unwind 24", mem=12, timeout=1800)
 h("C19", "c19::c19_estimate_history", tier="probe", funcs=["realtime::estimate_next_chunk_time", "ChunkTimingStats::{new,add_timing,get_average_timing,get_average_attempts}", "std HashMap/VecDeque"], space="11 samples under one key (durations 0..=60000 ms, attempts 1..=5, all symbolic) + 1 sample under another key", bounds="exactly 11+1 recorded samples; unwind 24", mfs=4096, mem=24, timeout=10800)
-h("C13", "c13::c13_truncated_last_zones", tier="probe", funcs=CFM, space="one segment whose azimuth 359 declares two zones; cut at 726..=734", bounds="unwind 362", mfs=16384, mem=24, timeout=10800, unwind_is_violation=True)
+h("C13", "c13::c13_truncated_last_zones", tier="probe", funcs=CFM, space="one segment whose azimuth 359 declares two zones; cut at 726..=734", bounds="unwind 362", mfs=1024, mem=24, timeout=7200, unwind_is_violation=True)
 h("C04", "c04::c04_vcp_fixed_frame", funcs=["decode_volume_coverage_pattern"], space="all 2^(8*114) inputs of 114 bytes", bounds="fixed length; unwind 5", mfs=128, mem=12, unwind_is_violation=True, timeout=1800)
 h("C04", "c04::c04_messages_unknown_block", funcs=["decode_messages", "decode_message_header", "decode_message_contents", "decode_digital_radar_data"], space="76-byte stream: one type-31 message with the unknown block name XYZ; free size fields of the message header", bounds="fixed length 76; unwind 12", mfs=128, mem=16, unwind_is_violation=True, timeout=1800)
+h("C04", "c04::c04_messages_unknown_block_size0", funcs=["decode_messages", "decode_message_header", "decode_message_contents", "decode_digital_radar_data"], space="76-byte stream: one type-31 message with the unknown block name XYZ; size fields concrete 0, channel/sequence/date/time bytes free", bounds="fixed length 76; unwind 12 (a loop that makes no progress fails the unwinding assertion)", mfs=128, mem=16, unwind_is_violation=True, timeout=1800)
+h("C03", "c03::c03_type31_odd_length_then_frame15", funcs=DM + ["decode_digital_radar_data"], space="95-byte type-31 message (one 8-bit REF moment, 3 gates; symbolic header, elevation number, gate bytes) followed by a type-15 frame with a concrete header", bounds="2 messages; odd message length; unwind 30", mfs=5000, mem=16, timeout=1800)
+h("C03", "c03::c03_type31_then_frame15_concrete_tail", funcs=DM, space="type-31 message (symbolic header, elevation number) followed by a type-15 frame whose header is concrete", bounds="2 messages; concrete second header; unwind 30", mfs=5000, mem=16, timeout=1800)
 h("C01", "c01::c01_two_radials_same_elevation", tier="probe", funcs=SC, space="1 record, 2 radials of elevation 1, each with a VOL block: azimuth numbers, VCP numbers, times symbolic", bounds="2 radials, concrete elevation numbers (1,1); unwind 8", mfs=4096, mem=30, timeout=3600)
 h("C01", "c01::c01_two_radials_two_elevations", tier="probe", funcs=SC, space="1 record, 2 radials of elevations 1 and 2, each with a VOL block", bounds="2 radials, concrete elevation numbers (1,2); unwind 8", mfs=4096, mem=30, timeout=3600)
 h("C16", "c16::c16_parse_concrete", tier="probe", funcs=CI, space="8 concrete names (sequence fields 001, 014, 054, 055, 056, 999, 0-4, 0a4)", bounds="concrete inputs; unwind 24", mem=10, timeout=1800)
 h("C16", "c16::c16_parse_letter", funcs=CI, space="all 128 ASCII type letters", bounds="unwind 24", mem=10, timeout=1800)
 h("C16", "c16::c16_successor_volume", funcs=["realtime::ChunkIdentifier::next_chunk", "VolumeIndex"], space="every sequence value >= 55 (sequence() stubbed by an arbitrary value) x volumes 1..=999", bounds="unwind 24", mem=10, timeout=1800)
 h("C16", "c16::c16_successor_sequence", funcs=["realtime::ChunkIdentifier::next_chunk"], space="every sequence value < 55 or unparsable x volumes 1..=999", bounds="unwind 24; name text stubbed", mem=10, timeout=1800)
+MC = "core::slice::memchr::{memchr,memrchr}->naive byte loop"
+h("C16", "c16::c16_sequence_digits", funcs=CI + ["ChunkIdentifier::sequence (real: str::split + parse::<usize>)"], space="all 1000 three-digit sequence fields", bounds="21-byte name; unwind 24", mem=10, timeout=1800, stubs=[MC])
+h("C16", "c16::c16_sequence_field_ascii", funcs=CI + ["ChunkIdentifier::sequence (real)"], space="all 2^21 three-byte ASCII sequence fields (digits, signs, dashes, letters)", bounds="21-byte name; unwind 24", mem=12, timeout=1800, stubs=[MC])
+h("C16", "c16::c16_chunk_name_total", tier="probe", funcs=["ChunkIdentifier::{new,sequence,chunk_type}"], space="all names of 0..=24 bytes: free ASCII with one 2-byte character at any position", bounds="L = 24; unwind 28", mem=16, timeout=1800, stubs=[MC])
+h("C16", "c16::c16_successor_real_parser", funcs=["ChunkIdentifier::{sequence,next_chunk}", "VolumeIndex"], space="all 1000 three-digit sequences x volumes 1..=999 on the real parser", bounds="unwind 24; successor name text stubbed", mem=12, timeout=1800, stubs=[MC])
+h("C16", "c16::c16_successor_name_text", tier="probe", funcs=["ChunkIdentifier::next_chunk", "core::fmt (real, not stubbed)"], space="every three-digit sequence below 55: successor name text", bounds="unwind 24; no verdict in 30 min (core::fmt)", mem=16, timeout=1800, stubs=[MC])
+h("C16", "c16::c16_archive_name_wellformed", funcs=["archive::Identifier::{new,site,date_time}"], space="all names SSSS + 8 date digits + '_' + 6 time digits + any ASCII suffix of 0..=5 bytes (valid calendar digits)", bounds="L = 19..=24; chrono's NaiveDate/NaiveTime::parse_from_str replaced by recorders that accept exactly 8 / 6 digits; unwind 28", mem=12, timeout=1800)
+for t, k in ((0, None), (1, None), (2, None), (3, None), (4, None), (5, None), (5, 2), (5, 3), (3, 1)):
+    h("C16", "c16::c16_chunk_name_tail%d%s" % (t, "_mb%d" % k if k is not None else ""), funcs=["ChunkIdentifier::{new,sequence,chunk_type}"], space="names '20240813-123330-' + %d free ASCII bytes%s" % (t, " with a two-byte character at tail byte %d" % k if k is not None else ""), bounds="fixed length %d; unwind 28" % (16 + t), mem=16, timeout=1800, stubs=[MC])
 h("C16", "c16::c16_archive_name_total", funcs=["archive::Identifier::{new,site,date_time}"], space="all strings of 0..=24 bytes: free ASCII with one 2-byte character at any position", bounds="L = 24; chrono's NaiveDate/NaiveTime::parse_from_str stubbed by 'any result'; unwind 28", mem=12, timeout=1800)
+for nm, sp in (("c04_type31_far_pointer_256m", "0x1000_0000"), ("c04_type31_far_pointer_max", "0xFFFF_FFFF")):
+    h("C04", "c04::%s" % nm, tier="probe", funcs=["decode_digital_radar_data", "alloc::alloc::{alloc,alloc_zeroed,realloc} (request-size cap asserted)"], space="76-byte message, one block pointer = %s (concrete, far beyond the input), the other 30 header bytes free" % sp, bounds="fixed length 76, concrete pointer; unwind 32; every allocation request <= 16 MiB", mem=12, mfs=128, unwind_is_violation=True, timeout=1800)
 h("C04", "z::c04_gate_buffer_bound", kind="z", script="smt/z_c04.py", funcs=["GenericDataBlock::new (MIR)"], space="all 2^16 gate counts x all 2^8 word sizes", bounds="loop-free; QF_BV; z3 and cvc5 must agree", mem=6, timeout=900)
 # the 'BZ' predicate and the decompress/decode error gates are part of C05's statement as well
 h("C05", "c06::c06_record_compressed", funcs=["volume::Record::{from_slice,new,data,compressed}"], space="all byte strings of length 0..=12", bounds="L = 12", mem=4)
@@ -260,6 +288,9 @@ for nm, sp in (("c02_two_vol_ref", "VOL then REF, contiguous, pointers in order"
                ("c02_two_elv_rad_gap", "ELV then RAD after a 4-byte gap"), ("c02_two_phi_rho_permuted", "PHI then RHO, gap 2, pointer table permuted"),
                ("c02_two_cfp_zdr", "CFP then ZDR, gap 1")):
     h("C02", "c02::%s" % nm, tier="quick" if nm in ("c02_two_ref_vol_permuted_gaps",) else "thorough", funcs=D31, space="header + 2 blocks (%s): all other bytes symbolic, word size 8|16" % sp, bounds="2 blocks, concrete layout; unwind 10", mfs=256, mem=16, timeout=2400)
+h("C13", "c13::c13_cut_last_zone_at_730", tier="thorough", funcs=CFM, space="one segment whose azimuth 359 declares two zones (symbolic values); body cut after the first of them (730 of 734 bytes)", bounds="concrete cut point; unwind 362", mfs=1024, mem=24, timeout=7200)
+for k, z in ((5, 0), (6, 0), (7, 0), (13, 2), (16, 2), (40, 1)):
+    h("C13", "c13::c13_truncated_at_%d%s" % (k, "_z%d" % z if z and k != 40 else ""), tier="probe", funcs=CFM, space="body cut after %d bytes: segment count symbolic in 1..=255, date/time symbolic, first azimuth declares %d zones with symbolic values" % (k, z), bounds="concrete cut point %d; unwind 24" % k, mem=8, timeout=900)
 h("C13", "c13::c13_truncated_early", tier="probe", funcs=CFM, space="one declared segment, zero zone counts, every cut point 0..=30", bounds="L = 30; unwind 16", mem=12, timeout=1800, unwind_is_violation=True)
 h("C09", "c09::c09_merge_stable_12_12_concrete", tier="thorough", funcs=MG, space="one concrete pair of 12-radial sweeps with pairwise colliding azimuth numbers (24 elements: beyond the insertion-sort threshold)", bounds="concrete input; unwind 26", mfs=16384, mem=24, timeout=3600)
-h("C14", "c14::c14_probe_concrete", tier="probe", mfs=4096, mem=16, timeout=1200)
+h("C14", "c14::c14_probe_concrete", tier="thorough", funcs=SUMF, space="one concrete list R(1) R(1) S R(1) O(13) O(13)", bounds="concrete input; unwind 10", mfs=32768, mem=20, timeout=2400)
